@@ -233,6 +233,11 @@ func runCase(k *mon.Case) {
 		if !dv.run(rc, c) {
 			k.Count("recipe.not_applicable", 1)
 		}
+		// keep the node's clock ahead of the active tip (an at-limit timestamp candidate may have become the tip)
+		if ts := s.Tip.Msg.Header.Timestamp.Unix(); s.N != nil && ts+3600 > s.N.Clock.Now() {
+			s.N.Clock.Set(ts + 3600)
+			g.ClockNow = ts + 3600
+		}
 		if r.Chance(1, 12) {
 			dv.cve()
 		}
